@@ -127,6 +127,10 @@ func init() {
 		"(*sync.RWMutex).RLock":   extNop,
 		"(*sync.RWMutex).RUnlock": extNop,
 		"(*sync.Once).Do":         extOnceDo,
+		"(*sync.WaitGroup).Add":   extNop,
+		"(*sync.WaitGroup).Done":  extNop,
+		"(*sync.WaitGroup).Wait":  extNop,
+		"(*os.File).Close":        func(fr *frame, args []value) value { return iface{} },
 
 		// harness language
 		ndPkg + ".F64":         ndF64,
@@ -159,6 +163,7 @@ func init() {
 		ndPkg + ".Depth":       ndDepth,
 		ndPkg + ".Memo":        ndMemo,
 		ndPkg + ".Stdout":      ndStdout,
+		ndPkg + ".Stderr":      ndStderr,
 		ndPkg + ".IsConcrete":  ndIsConcrete,
 		ndPkg + ".ForkMaps":    ndForkMaps,
 	} {
@@ -729,8 +734,16 @@ func (i *interpreter) writeTo(fr *frame, w value, bs []value) {
 					return
 				}
 			}
+			if g, ok := osPkg.Members["Stderr"].(*ssa.Global); ok {
+				if cell := i.globals[g]; cell != nil && *cell == it.v {
+					old := i.stderr
+					i.stderr = append(i.stderr[:len(i.stderr):len(i.stderr)], mkstr(bs))
+					i.logFn(func() { i.stderr = old })
+					return
+				}
+			}
 		}
-		return // stderr and other files: dropped
+		return // other files: dropped
 	}
 	ms := i.prog.MethodSets.MethodSet(it.t)
 	if sel := ms.Lookup(nil, "Write"); sel != nil {
@@ -1070,6 +1083,13 @@ func ndMemo(fr *frame, args []value) value {
 func ndStdout(fr *frame, args []value) value {
 	out := make([]value, len(fr.i.stdout))
 	copy(out, fr.i.stdout)
+	return out
+}
+
+// nd.Stderr() []string: the writes to standard error captured so far.
+func ndStderr(fr *frame, args []value) value {
+	out := make([]value, len(fr.i.stderr))
+	copy(out, fr.i.stderr)
 	return out
 }
 
